@@ -20,10 +20,10 @@ from gen import c11gen as T
 
 ID = "C11"
 PROPS = ["IsoVerif/Props/C11.lean", "IsoVerif/Props/C11Lists.lean", "IsoVerif/Props/C11Mirror.lean",
-         "IsoVerif/Props/C11Profiles.lean", "IsoVerif/Props/C11Polya.lean"]
+         "IsoVerif/Props/C11Profiles.lean", "IsoVerif/Props/C11Polya.lean", "IsoVerif/Props/C11Canonical.lean"]
 TARGETS = ["IsoVerif.Props.C11", "IsoVerif.Props.C11Lists", "IsoVerif.Props.C11Mirror", "IsoVerif.Props.C11Profiles",
-           "IsoVerif.Props.C11Polya"]
-GEN_DEPS = ["Prims", "Enums", "EventClasses"]
+           "IsoVerif.Props.C11Polya", "IsoVerif.Props.C11Canonical"]
+GEN_DEPS = ["Prims", "Enums", "EventClasses", "Constants"]
 LEVEL = "proof"
 RULE = ("relations S.<fn> (shift k) and M.<fn> (mirror L) on: exhaustive interval pairs over 0..U x delta 0..3 x "
         "k in {-7,1,255,256,1000} / L in {U+1, 40}; all sorted disjoint lists of <=3 intervals over 1..U and sampled pairs; "
@@ -516,8 +516,9 @@ def correspondence(ctx):
             ctx.disagree(op, kw, mo, io)
     # 2. left/right event tables: model (generated enum + swapLR) vs the Python enum
     event_table_correspondence(ctx)
-    # 3. the polyA / polyT code pairs
+    # 3. the polyA / polyT code pairs, the canonical splice-site tables
     polya_model_correspondence(ctx)
+    canonical_correspondence(ctx)
     # 4. relations: both sides on the model and on the real code
     cases = gen_relation_cases(ctx)
     outs = ctx.driver.run([vlib.req("C11." + name, **kw) for name, kw in cases])
@@ -840,6 +841,236 @@ def gen_finder_cases(rng, n):
     return out
 
 
+# ---- splice-site strand detection (canonical tables)
+
+BASES = "ACGTN"
+_FLIP = {"+": "-", "-": "+", ".": "."}
+
+
+def _rc(s):
+    return T.synth.revcomp(s.upper()) if s.isupper() else "".join(
+        (T.synth.COMP[c.upper()].lower() if c.islower() else T.synth.COMP[c]) for c in reversed(s))
+
+
+def all_site_pairs():
+    di = [a + b for a in BASES for b in BASES]
+    return [(l, r) for l in di for r in di]
+
+
+def canonical_correspondence(ctx):
+    """Model/C11Canonical.lean vs src/common.py get_intron_strand / get_strand and gene_info.StrandDetector"""
+    vlib.repo_on_path()
+    import src.common as C
+    from src.gene_info import StrandDetector
+    rng = ctx.rng
+    pairs = all_site_pairs()
+    outs = ctx.driver.run([vlib.req("C11.K.intron_strand", l=l, r=r) for l, r in pairs] +
+                          [vlib.req("C11.K.mirror_sites", l=l, r=r) for l, r in pairs])
+    n = len(pairs)
+    model_strand = {}
+    for i, (l, r) in enumerate(pairs):
+        ref = l + "NNN" + r
+        io = C.get_intron_strand((1, len(ref)), ref)
+        ctx.evaluations += 2
+        ctx.traces_validated += 2
+        ctx.count("op:K.intron_strand")
+        ctx.count("op:K.mirror_sites")
+        model_strand[(l, r)] = outs[i]
+        if outs[i] != io:
+            ctx.disagree("K.intron_strand", {"l": l, "r": r}, outs[i], io)
+        m = [_rc(r), _rc(l)]
+        if outs[n + i] != m:
+            ctx.disagree("K.mirror_sites", {"l": l, "r": r}, outs[n + i], m)
+        elif io != ".":
+            ctx.mark_nontrivial(["K.intron_strand", l, r])
+    for (l, r), st in model_strand.items():        # the theorem instance on the model's values
+        if model_strand[(_rc(r), _rc(l))] != _FLIP[st]:
+            ctx.disagree("model_relation:M.intron_strand", {"l": l, "r": r}, model_strand[(_rc(r), _rc(l))], _FLIP[st])
+    # site extraction and the votes
+    lines, cases = [], []
+    for _ in range(150 if ctx.tier == "quick" else 1500):
+        ref = "".join(rng.choice("ACGT") for _ in range(rng.randint(8, 40)))
+        a = rng.randint(1, len(ref) - 3)
+        b = rng.randint(a + 3, len(ref))
+        sites = [rng.choice(pairs) if rng.random() < 0.4 else rng.choice(
+            [("GT", "AG"), ("GC", "AG"), ("AT", "AC"), ("CT", "AC"), ("CT", "GC"), ("GT", "AT"), ("AT", "GT")])
+            for _ in range(rng.randint(0, 5))]
+        pa, pt = rng.random() < 0.3, rng.random() < 0.3
+        cases.append((ref, a, b, sites, pa, pt))
+        lines.append(vlib.req("C11.K.sites_of_intron", ref=ref, a=a, b=b))
+        lines.append(vlib.req("C11.K.strand", sites=sites, has_polya=pa, has_polyt=pt))
+    outs = ctx.driver.run(lines)
+    for i, (ref, a, b, sites, pa, pt) in enumerate(cases):
+        ctx.evaluations += 2
+        ctx.traces_validated += 2
+        ctx.count("op:K.sites_of_intron")
+        ctx.count("op:K.strand")
+        io = [ref[a - 1:a + 1], ref[b - 2:b]]
+        if outs[2 * i] != io:
+            ctx.disagree("K.sites_of_intron", {"ref": ref, "a": a, "b": b}, outs[2 * i], io)
+        # a reference that carries the chosen site pairs
+        seq, introns = "", []
+        for l, r in sites:
+            start = len(seq) + 6
+            seq += "CCCCC" + l + "NNNN" + r
+            introns.append((start, len(seq)))
+        seq += "CCCCC"
+        det = StrandDetector(seq)
+        io = {"get_strand": C.get_strand(introns, seq), "detector": det.get_strand(introns, pa, pt),
+              "clean": det.get_clean_strand(introns)}
+        if outs[2 * i + 1] != io:
+            ctx.disagree("K.strand", {"sites": sites, "has_polya": pa, "has_polyt": pt}, outs[2 * i + 1], io)
+        elif sites:
+            ctx.mark_nontrivial(["K.strand", sites, pa, pt])
+
+
+def strand_case(kw):
+    """reflection of the real strand detection: reverse-complemented reference, mirrored introns, polyA/T swapped"""
+    vlib.repo_on_path()
+    import src.common as C
+    from src.gene_info import StrandDetector
+    ref, introns, pa, pt = kw["ref"], _tl(kw["introns"]), kw["has_polya"], kw["has_polyt"]
+    L = len(ref)
+    mref = _rc(ref)
+    mi = T.mirror_l(L, introns)
+    for i, m in zip(introns, reversed(mi)):
+        a, b = C.get_intron_strand(i, ref), C.get_intron_strand(m, mref)
+        if b != _FLIP[a]:
+            return "get_intron_strand%s=%s on %s..%s, mirrored %s" % (i, a, ref[i[0] - 1:i[0] + 1], ref[i[1] - 2:i[1]], b)
+    a, b = C.get_strand(introns, ref.upper()), C.get_strand(mi, mref.upper())
+    if b != _FLIP[a]:
+        return "get_strand=%s, mirrored %s" % (a, b)
+    d, dm = StrandDetector(ref), StrandDetector(mref)
+    a, b = d.get_strand(introns, pa, pt), dm.get_strand(mi, pt, pa)
+    if b != _FLIP[a]:
+        return "StrandDetector.get_strand=%s, mirrored %s" % (a, b)
+    a, b = d.get_clean_strand(introns), dm.get_clean_strand(mi)
+    if b != _FLIP[a]:
+        return "StrandDetector.get_clean_strand=%s, mirrored %s" % (a, b)
+    k = kw["k"]
+    sref = "".join("ACGT"[(j * 7) % 4] for j in range(k)) + ref
+    if StrandDetector(sref).get_strand(T.shift_l(k, introns), pa, pt) != d.get_strand(introns, pa, pt):
+        return "StrandDetector.get_strand not shift invariant"
+    return None
+
+
+def gen_strand_cases(rng, n):
+    out = []
+    for l, r in all_site_pairs():        # every dinucleotide pair once, as a single intron
+        ref = "CCCC" + l + "TTTTT" + r + "GG"
+        out.append({"ref": ref, "introns": [(5, 13)], "has_polya": False, "has_polyt": False, "k": 3})
+    canon = [("GT", "AG"), ("GC", "AG"), ("AT", "AC"), ("CT", "AC"), ("CT", "GC"), ("GT", "AT")]
+    for _ in range(n):
+        seq, introns = "", []
+        for _ in range(rng.randint(1, 5)):
+            l, r = rng.choice(canon) if rng.random() < 0.7 else (rng.choice("ACGT") + rng.choice("ACGT"), rng.choice("ACGT") + rng.choice("ACGT"))
+            seq += "".join(rng.choice("ACGT") for _ in range(rng.randint(3, 12)))
+            start = len(seq) + 1
+            seq += l + "".join(rng.choice("ACGT") for _ in range(rng.randint(1, 9))) + r
+            introns.append((start, len(seq)))
+        seq += "".join(rng.choice("ACGT") for _ in range(rng.randint(3, 12)))
+        if rng.random() < 0.3:
+            seq = seq.lower()
+        out.append({"ref": seq, "introns": introns, "has_polya": rng.random() < 0.3, "has_polyt": rng.random() < 0.3,
+                    "k": rng.choice([1, 7, 255])})
+    return out
+
+
+# ---- start / end threading of the model construction (real IntronPathProcessor on a hand-built graph)
+
+def _processor(out_edges, in_edges):
+    vlib.repo_on_path()
+    from collections import defaultdict
+    from src.graph_based_model_construction import IntronPathProcessor
+    from src.intron_graph import IntronGraph
+    g = IntronGraph.__new__(IntronGraph)
+    g.outgoing_edges = defaultdict(set)
+    g.incoming_edges = defaultdict(set)
+    for k_, vs in out_edges.items():
+        for v in vs:
+            g.outgoing_edges[k_].add(v)
+    for k_, vs in in_edges.items():
+        for v in vs:
+            g.incoming_edges[k_].add(v)
+    p = IntronPathProcessor.__new__(IntronPathProcessor)
+    p.params = _P(apa_delta=50, delta=6)
+    p.intron_graph = g
+    return p
+
+
+def thread_case(kw):
+    """translation of thread_ends / thread_starts: the vertex chosen for the shifted graph is the shifted vertex"""
+    intron = tuple(kw["intron"])
+    out_v = [tuple(v) for v in kw["out"]]      # (type, pos) terminal vertices and (start, end) introns after `intron`
+    in_v = [tuple(v) for v in kw["in"]]
+    sh = lambda v, k: (v[0], v[1] + k) if v[0] < 0 else (v[0] + k, v[1] + k)
+    base = _processor({intron: out_v}, {intron: in_v})
+    res = []
+    for pos, trusted in kw["queries"]:
+        res.append((base.thread_ends(intron, pos, trusted), base.thread_starts(intron, pos, trusted)))
+    for k in kw["ks"]:
+        si = (intron[0] + k, intron[1] + k)
+        p = _processor({si: [sh(v, k) for v in out_v]}, {si: [sh(v, k) for v in in_v]})
+        for (pos, trusted), (e0, s0) in zip(kw["queries"], res):
+            e1, s1 = p.thread_ends(si, pos + k, trusted), p.thread_starts(si, pos + k, trusted)
+            if e1 != (None if e0 is None else sh(e0, k)):
+                return "thread_ends(%s, %d, %s) = %s, after a shift by %d: %s" % (intron, pos, trusted, e0, k, e1)
+            if s1 != (None if s0 is None else sh(s0, k)):
+                return "thread_starts(%s, %d, %s) = %s, after a shift by %d: %s" % (intron, pos, trusted, s0, k, s1)
+    return None
+
+
+def thread_mirror_case(kw):
+    """reflection of the threading: thread_starts on the mirrored graph (polyA <-> polyT, read end <-> read start,
+    outgoing <-> incoming) must return the mirror image of what thread_ends returns, and vice versa"""
+    intron = tuple(kw["intron"])
+    L = kw["L"]
+    sw = {-10: -20, -20: -10, -11: -21, -21: -11}
+    mv = lambda v: (sw[v[0]], L + 1 - v[1]) if v[0] < 0 else (L + 1 - v[1], L + 1 - v[0])
+    out_v = [tuple(v) for v in kw["out"]]
+    in_v = [tuple(v) for v in kw["in"]]
+    mi = (L + 1 - intron[1], L + 1 - intron[0])
+    base = _processor({intron: out_v}, {intron: in_v})
+    mir = _processor({mi: [mv(v) for v in in_v]}, {mi: [mv(v) for v in out_v]})
+    for pos, trusted in kw["queries"]:
+        e0, s1 = base.thread_ends(intron, pos, trusted), mir.thread_starts(mi, L + 1 - pos, trusted)
+        if s1 != (None if e0 is None else mv(e0)):
+            return "thread_ends(%s, %d, %s) = %s but thread_starts on the mirror image = %s (expected %s)" % (
+                intron, pos, trusted, e0, s1, None if e0 is None else mv(e0))
+        s0, e1 = base.thread_starts(intron, pos, trusted), mir.thread_ends(mi, L + 1 - pos, trusted)
+        if e1 != (None if s0 is None else mv(s0)):
+            return "thread_starts(%s, %d, %s) = %s but thread_ends on the mirror image = %s" % (intron, pos, trusted, s0, e1)
+    return None
+
+
+# witness of the listed finding `thread_mirror`: two polyA sites 90 bp apart, a tailed read ending 40 bp after the first
+THREAD_MIRROR_WITNESS = {"intron": (1000, 2000), "out": [(-10, 2400), (-10, 2490)], "in": [], "queries": [(2440, True)],
+                         "L": 10000}
+
+
+SHIFTS_WIDE = [1, 2, 3, 5, 8, 13, 100, 255, 256, 1000, 1001, 2048, 4099]
+
+
+def gen_thread_cases(rng, n):
+    out = []
+    for _ in range(n):
+        a = rng.randint(1000, 50000)
+        b = a + rng.randint(80, 2000)
+        # terminal vertices right of the intron (for ends) / left of it (for starts): clusters 30..120 bp apart
+        e0 = b + rng.randint(100, 600)
+        ends = [e0 + d for d in sorted(rng.sample(range(0, 260, 5), rng.randint(1, 4)))]
+        s0 = a - rng.randint(100, 600)
+        starts = [s0 - d for d in sorted(rng.sample(range(0, 260, 5), rng.randint(1, 4)))]
+        out_v = [(rng.choice([-10, -10, -11]), e) for e in ends]
+        in_v = [(rng.choice([-20, -20, -21]), s_) for s_ in starts]
+        if rng.random() < 0.4:
+            out_v.append((b + rng.randint(50, 90), b + rng.randint(700, 900)))
+            in_v.append((a - rng.randint(700, 900), a - rng.randint(50, 90)))
+        queries = [(rng.choice(ends + starts) + rng.choice([-60, -45, -20, 0, 20, 45, 60]), rng.random() < 0.6) for _ in range(6)]
+        out.append({"intron": (a, b), "out": out_v, "in": in_v, "queries": queries, "ks": rng.sample(SHIFTS_WIDE, 5)})
+    return out
+
+
 # ---- O4: real profile constructors + LongReadAssigner on generated genes and reads
 
 def _params():
@@ -1132,22 +1363,34 @@ def _classify_pipeline_diff(diffs, L_of):
     return "finder_position" if kinds == {"polya_position"} else "pipeline_mirror"
 
 
+_BASE_CACHE = {}
+
+
 def pipeline_case(kw, keep=None):
     """one metamorphic pipeline experiment: -> (kind, detail) or None"""
     import random
     P = _pipeline()
     mode, seed = kw["mode"], kw["seed"]
+    # the loci with two polyA clusters within tolerance of one read end are used for translation only: under reflection
+    # they show the listed finding `thread_mirror` (thread_ends / thread_starts both take the lowest coordinate)
+    special = True if mode == "shift" else "no_clusters"
     ds = T.metamorphic_dataset(seed, n_chroms=kw.get("n_chroms", 2), genes_per_chrom=kw.get("genes", 3),
-                               reads_per_tx=kw.get("reads_per_tx", 5), novel=kw.get("novel", True))
+                               reads_per_tx=kw.get("reads_per_tx", 5), novel=kw.get("novel", True), special=special)
     d = keep or tempfile.mkdtemp(prefix="isoverif_c11_")
     try:
         extra = ["--count_exons"] + list(kw.get("extra", []))
-        p0 = ds.write(os.path.join(d, "in0"))
-        rc, log = P.run_isoquant(os.path.join(d, "out0"), P.std_args(p0, threads=1, extra=extra))
-        if rc != 0:
-            return ("pipeline_crash", "original run rc=%s: %s" % (rc, log[-400:]))
-        ident = {"pos": lambda c, v: v, "ivl": lambda c, l: list(l), "strand": lambda s: s}
-        base = canon_outputs(os.path.join(d, "out0"), "S", ident, False)
+        key = (seed, special, kw.get("n_chroms", 2), kw.get("genes", 3), kw.get("reads_per_tx", 5), kw.get("novel", True), tuple(extra),
+               vlib.REPO)
+        if key in _BASE_CACHE and not keep:
+            base = _BASE_CACHE[key]
+        else:
+            p0 = ds.write(os.path.join(d, "in0"))
+            rc, log = P.run_isoquant(os.path.join(d, "out0"), P.std_args(p0, threads=1, extra=extra))
+            if rc != 0:
+                return ("pipeline_crash", "original run rc=%s: %s" % (rc, log[-400:]))
+            ident = {"pos": lambda c, v: v, "ivl": lambda c, l: list(l), "strand": lambda s: s}
+            base = canon_outputs(os.path.join(d, "out0"), "S", ident, False)
+            _BASE_CACHE[key] = base
         if mode == "shift":
             k = kw["k"]
             ds2 = T.shifted_dataset(ds, k, random.Random(seed + k))
@@ -1176,11 +1419,16 @@ def pipeline_case(kw, keep=None):
 
 
 def pipeline_plan(ctx):
+    """shift values: the four of the statement plus small primes / powers of two (set-iteration order of coordinate
+    tuples, hence anything that forgets to sort, changes with about every second k)"""
     quick = ctx.tier == "quick"
     seeds = [ctx.seed % 100000 + i for i in range(2 if quick else 12)]
     plan = []
     for i, s in enumerate(seeds):
-        ks = SHIFTS if not quick else [SHIFTS[i % 2], SHIFTS[2 + i % 2]]
+        if quick:
+            ks = [SHIFTS[(2 * i) % 4], SHIFTS[(2 * i + 1) % 4]] + ctx.rng.sample([2, 3, 5, 8, 13, 100, 1001, 2048, 4099], 3)
+        else:
+            ks = SHIFTS + ctx.rng.sample([2, 3, 5, 8, 13, 100, 1001, 2048, 4099], 4)
         for k in ks:
             plan.append({"mode": "shift", "seed": s, "k": k})
         plan.append({"mode": "mirror", "seed": s})
@@ -1216,11 +1464,18 @@ def oracle(ctx, disagreements, broken):
     # seeded with the disagreeing inputs
     for d in disagreements:
         name = d["op"].split(":", 1)[-1]
-        if name.startswith(("S.", "M.")) and isinstance(d["input"], dict):
-            r = oracle_relation(name, d["input"])
+        inp = d["input"]
+        if not isinstance(inp, dict):
+            continue
+        if name in ("M.intron_strand", "K.intron_strand", "K.mirror_sites") and "l" in inp:
+            kw = {"ref": "CCCC" + inp["l"] + "TTTTT" + inp["r"] + "GG", "introns": [(5, 13)], "has_polya": False,
+                  "has_polyt": False, "k": 3}
+            _run(ctx, "strand_detection", dict(kw, what="strand"), lambda i: strand_case(i))
             n += 1
-            if r:
-                _fail(ctx, "relation:" + name, {"relation": name, "args": d["input"]}, r)
+        elif name.startswith(("S.", "M.")) and ("k" in inp or "L" in inp):
+            _run(ctx, "relation:" + name, {"relation": name, "args": inp},
+                 lambda i: (lambda r: ("relation:" + i["relation"], r) if r else None)(oracle_relation(i["relation"], i["args"])))
+            n += 1
     # O1 relations on the real functions (independent of the driver)
     cases = gen_relation_cases(ctx)
     if quick and not broken:
@@ -1240,6 +1495,14 @@ def oracle(ctx, disagreements, broken):
     for kw in gen_finder_cases(ctx.rng, 300 if quick else 3000):
         _run(ctx, "finder", dict(kw, what="finder"), lambda i: polya_finder_case(i))
         n += 1
+    # O3b splice-site strand detection under reflection; start / end threading under translation
+    for kw in gen_strand_cases(ctx.rng, 400 if quick else 4000):
+        _run(ctx, "strand_detection", dict(kw, what="strand"), lambda i: strand_case(i))
+        n += 1
+    for kw in gen_thread_cases(ctx.rng, 300 if quick else 3000):
+        _run(ctx, "thread_shift", dict(kw, what="thread"), lambda i: thread_case(i))
+        n += 1
+    _run(ctx, "thread_mirror", dict(THREAD_MIRROR_WITNESS, what="thread_mirror"), lambda i: thread_mirror_case(i))
     # O4 assigner level
     na = 2500 if quick else 50000
     for kw in REGRESSIONS + gen_assigner_cases(ctx.rng, na):
@@ -1262,19 +1525,35 @@ def oracle(ctx, disagreements, broken):
 
 
 def replay(ctx, failure):
+    """re-runs the recorded input; it still fails iff the same failure kind is reproduced (a listed finding that the
+    same input also shows, e.g. the polyA position payload of a pipeline reflection, does not count)"""
     inp = failure["input"]
     what = inp.get("what")
+    kind = failure.get("kind")
+
+    def same_kind(r, default):
+        if not r:
+            return False
+        k_ = r[0] if isinstance(r, tuple) else default
+        return k_ == kind or kind is None
+
     try:
         if "relation" in inp:
             return oracle_relation(inp["relation"], inp["args"]) is not None
         if what == "polya_pair":
             return polya_pair_case(inp) is not None
         if what == "finder":
-            return polya_finder_case(inp) is not None
+            return same_kind(polya_finder_case(inp), "finder")
         if what == "assigner":
-            return assigner_case(inp) is not None
+            return same_kind(assigner_case(inp), "assigner")
+        if what == "strand":
+            return strand_case(inp) is not None
+        if what == "thread":
+            return thread_case(inp) is not None
+        if what == "thread_mirror":
+            return thread_mirror_case(inp) is not None
         if what == "pipeline":
-            return pipeline_case(inp) is not None
+            return same_kind(pipeline_case(inp), "pipeline")
         if "event" in inp:
             return any(i == inp for _, i, _ in oracle_event_tables())
     except Exception:
